@@ -331,8 +331,30 @@ func doCas(schedFile string) {
 
 // ---------------- recursive consumers under small limits ----------------
 
+// bound of spec/limit/ConsumerBound.tla (kept in step with it; the verdict is TLC's)
+func workBound(w, d int) uint64 {
+	geo, pw := uint64(1), uint64(1)
+	for i := 0; i < d; i++ {
+		pw *= uint64(w)
+		geo += pw
+		if geo > 1<<40 {
+			return 1 << 62
+		}
+	}
+	return 4 * geo * 8 * uint64(w)
+}
+
 func doConsumers(msgFile string) {
 	debug.SetMaxStack(64 << 20)
+	var work *json.Encoder
+	if len(os.Args) > 3 {
+		f, err := os.Create(os.Args[3])
+		if err != nil {
+			panic(err)
+		}
+		defer f.Close()
+		work = json.NewEncoder(f)
+	}
 	vwalk.Cross = false
 	stats := map[string]int{}
 	deadline := time.Now().Add(150 * time.Second)
@@ -343,10 +365,21 @@ func doConsumers(msgFile string) {
 			return
 		}
 		segs := vwalk.SegsFromJSON(r["segs"])
-		for _, T := range []uint64{64, 4096, 1 << 16} {
+		nwords := 0
+		for _, sg := range segs {
+			nwords += len(sg) / 8
+		}
+		for _, T := range []uint64{64, 4096, 1 << 16, 1 << 22} {
 			for _, D := range []uint{1, 2, 5, 64} {
+				if T == 1<<22 && workBound(nwords, int(D)) >= T {
+					continue // the large budget only serves the work bound
+				}
 				for _, name := range []string{"walk", "equal", "canonicalize", "deepcopy", "text"} {
+					if T == 1<<22 && name == "walk" {
+						continue
+					}
 					start := time.Now()
+					var used, produced uint64
 					func() {
 						defer func() {
 							if p := recover(); p != nil {
@@ -372,12 +405,22 @@ func doConsumers(msgFile string) {
 						case "deepcopy":
 							m2, _, _ := capnp.NewMessage(capnp.SingleSegment(nil))
 							m2.SetRoot(root)
+							if b, err := m2.Marshal(); err == nil {
+								produced = uint64(len(b))
+							}
 						case "text":
 							if root.Struct().IsValid() {
 								text.Marshal(air.Z_TypeID, root.Struct())
 							}
 						}
+						if left := m.VerifReadLimit(); left <= T {
+							used = T - left
+						}
 					}()
+					if work != nil && name != "walk" && workBound(nwords, int(D)) < T {
+						work.Encode(J{"line": line, "consumer": name, "w": nwords, "d": D, "t": T, "used": used, "produced": produced})
+						stats["work_records"]++
+					}
 					stats["consumer_runs"]++
 					if el := time.Since(start); el > 5*time.Second {
 						emit(J{"line": line, "what": "slow", "consumer": name, "T": T, "D": D, "detail": el.String(), "segs": r["segs"]})
